@@ -220,6 +220,8 @@ impl Selector {
 pub(crate) enum Display {
     /// display: none
     None,
+    /// Any other display value: the element is rendered as usual
+    Other,
     #[cfg(feature = "css_ext")]
     /// Show node as HTML DOM
     ExtRawDom,
@@ -259,6 +261,8 @@ impl std::fmt::Display for StyleDecl {
             Style::BgColour(col) => write!(f, "background-color: {}", col)?,
             #[cfg(feature = "css")]
             Style::Display(Display::None) => write!(f, "display: none")?,
+            #[cfg(feature = "css")]
+            Style::Display(Display::Other) => write!(f, "display: other")?,
             #[cfg(feature = "css_ext")]
             Style::Display(Display::ExtRawDom) => write!(f, "display: x-raw-dom")?,
             #[cfg(feature = "css")]
@@ -375,7 +379,13 @@ fn styles_from_properties(decls: &[parser::Declaration]) -> Vec<StyleDecl> {
                         importance: decl.important,
                     });
                 }
-                _ => (),
+                // A later or more specific `display: block` etc. overrides `display: none`.
+                parser::Display::Other => {
+                    styles.push(StyleDecl {
+                        style: Style::Display(Display::Other),
+                        importance: decl.important,
+                    });
+                }
             },
             parser::Decl::WhiteSpace { value } => {
                 styles.push(StyleDecl {
